@@ -140,7 +140,7 @@ func (r *Runner) specStep(k int, st SpecStep) {
 	case "ClientRead":
 		c.net.maxPerLink = 0
 		ok = r.Do(Stim{Op: "submit", N: n, Val: fmt.Sprintf("rd%d", k), K: 1, TO: 60000})
-	case "RVHandle", "AEHandle":
+	case "RVHandle", "AEHandle", "ISHandle":
 		if mapped == nil || mapped.Phase != 0 {
 			ok = false
 			break
@@ -149,7 +149,7 @@ func (r *Runner) specStep(k int, st SpecStep) {
 			c.lapse(st.M.To)
 		}
 		r.doRPC(Stim{Op: "deliver", Kind: mapped.Kind, From: mapped.From, To: mapped.To}, mapped)
-	case "RVReply", "AEReply":
+	case "RVReply", "AEReply", "ISReply":
 		if mapped == nil || mapped.Phase != 2 {
 			ok = false
 			break
